@@ -117,9 +117,10 @@ def addFlagStep (flag : FlagVal) (ids : List MessageId) (db : DB) : Except DbErr
 /-- every listed message has the flag afterwards (exact spelling); all must exist -/
 def addFlagToMessages (ids : List MessageId) (flag : FlagVal) : Tx Unit := guarded ids (addFlagStep flag ids)
 
-/-- `DELETE FROM message_flags_v2 WHERE message_id IN ids AND value = flag` -/
+/-- `DELETE FROM message_flags_v2 WHERE message_id IN ids AND value = flag COLLATE NOCASE`: every spelling
+    (ASCII letter case) of the flag is removed from the listed messages -/
 def removeFlagStep (flag : FlagVal) (ids : List MessageId) (db : DB) : Except DbErr DB :=
-  .ok { db with msgFlags := db.msgFlags.filter fun p => !(ids.contains p.1 && p.2 == flag) }
+  .ok { db with msgFlags := db.msgFlags.filter fun p => !(ids.contains p.1 && p.2.toLower == flag.toLower) }
 
 def removeFlagFromMessages (ids : List MessageId) (flag : FlagVal) : Tx Unit := guarded ids (removeFlagStep flag ids)
 
